@@ -171,8 +171,12 @@ def _side(draw, gspec, axis, rank, dtype, kinds, allow_normal, allow_expr, repli
     return side
 
 
+# "objects_sides": condition OBJECTS as the values of a dictionary of sides (the package copies such
+# instances); "objects_copied": a copy of an explicitly built BoundariesList - both after missed seed C02-7
+# (MixedBC.copy lost the Robin constant); constant-value kinds only (copying expression conditions fails
+# with a TypeError on the unchanged tree, see DESIGN.md observations)
 STYLES = ("sides", "axis", "wildcard", "named", "single", "auto_neumann", "auto_dirichlet",
-          "objects", "legacy_list", "legacy_lowhigh", "mixed_keys")
+          "objects", "legacy_list", "legacy_lowhigh", "mixed_keys", "objects_sides", "objects_copied")
 
 
 @st.composite
@@ -412,6 +416,25 @@ def render_bc(bc, gspec, grid=None, dtype="f8"):
             nm = ALIASES[("normal_" + s["kind"]) if s["normal"] else s["kind"]]
             return nm[0], "single_str"  # bare string: condition with value 0
         return rs(0, False), style
+    if style in ("objects_sides", "objects_copied"):
+        if grid is None:
+            raise ValueError("need grid")
+        only_const = all(isinstance(ax, str) or all(ax[k]["kind"] in CONST_KINDS for k in ("low", "high"))
+                         for ax in bc["axes"])
+        if not only_const:
+            style = "objects"
+        else:
+            bl = explicit_boundaries(bc, grid, gspec, dtype)
+            if style == "objects_copied":
+                return bl.copy(), style
+            res = {}
+            for a, ax in enumerate(bc["axes"]):
+                if isinstance(ax, str):
+                    res[names[a]] = ax
+                else:
+                    res[names[a] + "-"] = bl[a].low
+                    res[names[a] + "+"] = bl[a].high
+            return res, style
     if style == "objects":
         if grid is None:
             raise ValueError("need grid")
